@@ -33,7 +33,7 @@ ASSUMPTIONS = [
     "transfer coding without chunk extensions/trailers, 204 without body headers",
 ]
 TIERS = {
-    "quick": {"runs": 2600, "wall": 50},
+    "quick": {"runs": 6000, "wall": 50},
     "thorough": {"runs": 120000, "wall": 900},
 }
 
